@@ -147,6 +147,10 @@ class Program:
             name = "measured" if fn == "__init__.py" else "measured." + fn[:-3]
             self.modules[name] = Module(name, os.path.join(self.pkg, fn))
 
+    def add_module(self, name, path):
+        """a sidecar module (lemma functions); its names resolve like those of `measured`"""
+        self.modules[name] = Module(name, path)
+
     def func(self, qual):
         """measured.Unit._multiply / measured.conversions.convert / measured._add"""
         parts = qual.split(".")
